@@ -18,6 +18,7 @@ CASES = [
     'ref_no_type', 'ref_m2m_detached_sql', 'column_in_table_no_type', 'table_in_db_no_name',
     'item_in_enum_no_name', 'item_in_db_enum_no_name', 'column_in_table_no_name', 'index_in_table_no_subjects', 'enum_in_db_no_schema',
     'ref_mixed_same_fullname_table1', 'ref_mixed_same_fullname_dbml', 'ref_in_db_detached_sql', 'ref_in_db_detached_dbml',
+    'ref_composite_detached_trailing_sql', 'ref_composite_detached_trailing_dbml',
 ]
 
 
@@ -138,6 +139,13 @@ def refused(K=2):
             db.add(r)
             t2.delete_column(0)        # the referenced column is detached afterwards (editing history)
             return ((lambda: db.sql) if case.endswith('sql') else (lambda: db.dbml)), ex.TableNotFoundError
+        if case in ('ref_composite_detached_trailing_sql', 'ref_composite_detached_trailing_dbml'):
+            r = Reference('>' if a['p_edit'] else '<', [t1.columns[0], t1.columns[1]], [t2.columns[0], t2.columns[1]])
+            if a['p_inline']:
+                t2.delete_column(1)        # the trailing column of the right side is detached
+            else:
+                t1.delete_column(1)        # ... or of the left side
+            return ((lambda: r.sql) if case.endswith('sql') else (lambda: r.dbml)), ex.TableNotFoundError
         if case == 'table_get_refs_detached':
             d = Table(nm, columns=[Column('id', 'int')])
             return (lambda: d.get_refs()), ex.UnknownDatabaseError
